@@ -144,7 +144,7 @@ def ts_to_string(ts):
     return ''.join(out)
 
 
-_TOK = re.compile(r"\s*(?:(?P<id>[A-Za-z_][A-Za-z0-9_]*)|(?P<lt>'[A-Za-z_][A-Za-z0-9_]*)|(?P<num>\d[\w.]*)|(?P<str>\"(?:[^\"\\]|\\.)*\")|(?P<p>[~@#$%^&*\-+=|:;,.<>?/!])|(?P<open>[(\[{])|(?P<close>[)\]}]))")
+_TOK = re.compile(r"\s*(?:(?P<id>[A-Za-z_][A-Za-z0-9_]*)|(?P<lt>'[A-Za-z_][A-Za-z0-9_]*)|(?P<num>\d\w*(?:\.\d\w*)?)|(?P<str>\"(?:[^\"\\]|\\.)*\")|(?P<p>[~@#$%^&*\-+=|:;,.<>?/!])|(?P<open>[(\[{])|(?P<close>[)\]}]))")
 
 
 def tokenize(s, origin=None):
@@ -188,9 +188,7 @@ def render(ts, leaf_text=None):
         elif isinstance(t, TIdent):
             out.append(t.name)
         elif isinstance(t, TPunct):
-            out.append(t.ch)
-            if t.joint is True:
-                out.append('\x01')
+            out.append(t.ch + ('\x01' if t.joint is True else ''))
         elif isinstance(t, TLit):
             out.append(t.text)
         elif isinstance(t, TOpq):
